@@ -144,13 +144,26 @@ def getitem(I, m: SMap, key):
     return s.value
 
 
+def _absent_is_empty(m, kt, val):
+    """In a map with a default factory (collections.defaultdict(list)) a key that is absent reads as a new empty
+    collection: the stored collection counts only while the key is present (a popped entry is not `map[k]` any more)."""
+    if m.default_factory is None or not isinstance(val, SColl):
+        return val
+    has = z3.Select(m.has, kt)
+    c = SColl(val.name, val.etype, [[_and([p, has]), v] for p, v in val.members],
+              None if val.rest_nonempty is None else _and([val.rest_nonempty, has]))
+    c.oid = val.oid
+    c.entry_members = val.entry_members
+    return c
+
+
 def _fmode_value(I, m, kt):
     """Value stored under key term kt, as a term, without branching: the materialised slot whose key
     provably equals kt; otherwise an if-then-else over the slots kt may alias, ending in the (arbitrary)
     value of a key nobody touched."""
     s = find_slot(I, m, kt, create=False)
     if s is not None:
-        return s.value
+        return _absent_is_empty(m, kt, s.value)
     cands = []
     for s_ in m.slots:
         eq = z3.simplify(s_.key == kt)
